@@ -1,6 +1,7 @@
 #!/bin/bash
 # tools/sweep_mutants.sh <root of mutant dirs> : for every <root>/<Cxx>/m<k>/patch.diff apply it to /repo (or to SWEEP_REPO, a scratch worktree the simulator copy under VERIF_HOME points at), run the
 # property's own check and its neighbours (quick tier), restore /repo. Writes <dir>/caught.txt.
+# OWN_ONLY=1: only the property's own check; CAUGHT=<file name>: write there instead of caught.txt (a regression pass that leaves the full results alone).
 ROOT="$1"
 declare -A REL=( [C01]="C01 C02 C06 C10" [C02]="C02 C01 C10 C14" [C03]="C03 C07 C08 C01" [C04]="C04 C06 C14 C08" [C05]="C05 C08 C06" [C06]="C06 C01 C07 C08 C14 C03" [C07]="C07 C08 C06 C03" [C08]="C08 C04 C05 C06" [C10]="C10 C02 C14" [C13]="C13 C15" [C14]="C14 C04 C02 C10" [C15]="C15 C13 C02 C10" [C16]="C16 C14 C04" [C17]="C17" [C20]="C20" )
 R=${SWEEP_REPO:-/repo}
@@ -12,17 +13,19 @@ for d in ${ONLY:-$ROOT/C*/m*}; do
   pid=$(basename $(dirname $d))
   git -C $R checkout -- . >/dev/null 2>&1
   if ! git -C $R apply "$d/patch.diff" 2>/dev/null; then echo "$d: PATCH DOES NOT APPLY" | tee "$d/caught.txt"; continue; fi
-  : > "$d/caught.txt"
-  for id in ${REL[$pid]}; do
+  CF="$d/${CAUGHT:-caught.txt}"
+  : > "$CF"
+  rel="${REL[$pid]}"; [ -n "$OWN_ONLY" ] && rel="$pid"
+  for id in $rel; do
     rm -rf "$d/out/$id"; mkdir -p "$d/out/$id"
     out=$(cd ${VERIF_HOME:-/verif} && VERIF_OUT="$d/out/$id" ./check "$id" ${TIER:-quick} 2>&1); rc=$?
     rules=$(echo "$out" | grep -E "^violation:" | sed -E 's/.*rule=([^ ]+).*/\1/' | sort -u | tr '\n' ',' | sed 's/,$//')
     ev=$(echo "$out" | grep -E "evaluations" | sed -E 's/.*: ([0-9]+) evaluations.*/\1/')
-    echo "$id exit=$rc evaluations=$ev rules=$rules" >> "$d/caught.txt"
-    if [ $rc = 2 ]; then echo "$out" | tail -15 >> "$d/caught.txt"; fi
+    echo "$id exit=$rc evaluations=$ev rules=$rules" >> "$CF"
+    if [ $rc = 2 ]; then echo "$out" | tail -15 >> "$CF"; fi
   done
   git -C $R checkout -- . >/dev/null 2>&1
-  echo "== $d"; cat "$d/caught.txt"
+  echo "== $d"; cat "$CF"
 done
 # every minimised scenario must pass on the unchanged tree (a replay that also fails there would mean the check
 # itself is wrong for that scenario, e.g. the shrinker left the check's domain)
@@ -31,7 +34,7 @@ for d in ${ONLY:-$ROOT/C*/m*}; do
   for f in "$d"/out/*/replays/*.json; do
     [ -f "$f" ] || continue
     (cd ${VERIF_HOME:-/verif} && ./check replay "$f" >/dev/null 2>&1); rc=$?
-    echo "clean_replay $(basename $f) exit=$rc" >> "$d/caught.txt"
+    echo "clean_replay $(basename $f) exit=$rc" >> "$d/${CAUGHT:-caught.txt}"
     [ $rc = 0 ] || echo "!! $f reproduces on the unchanged tree (exit $rc)"
   done
 done
